@@ -76,6 +76,12 @@ func (e *Engine) ctxCancel(s *State, id int, err, cause Value) {
 	if w.ctx.done != 0 {
 		e.wobj(s, w.ctx.done).ch.closed = true
 	}
+	if s.race != nil && e.raceG >= 0 {
+		// cancellation happens-before everything that observes it
+		for _, k := range []string{fmt.Sprintf("c%d", w.ctx.done), fmt.Sprintf("ctx%d", id)} {
+			s.race.sync[k] = vcJoin(s.race.sync[k], s.race.vcOf(e.raceG))
+		}
+	}
 	children := w.ctx.children
 	w.ctx.children = nil
 	afs := w.ctx.afterFuncs
@@ -133,6 +139,12 @@ func (e *Engine) initNativeClosures() {
 }
 
 func (e *Engine) callNativeClosure(s *State, gi int, fv *FuncV, args []Value, kind retKind) {
+	e.raceG = gi
+	defer func() {
+		if s.race != nil {
+			s.race.tick(gi)
+		}
+	}()
 	switch fv.native {
 	case "ctx.cancel":
 		id := fv.data.(Ptr).obj
@@ -263,6 +275,7 @@ func (e *Engine) ctxNative(fi *FnInfo) *Native {
 	case "(*context.cancelCtx).Err":
 		return visible(func(e *Engine, s *State, gi int, args []Value) Value {
 			id := e.cancelRoot(s, args[0].(Ptr).obj)
+			e.raceAcquire(s, gi, fmt.Sprintf("ctx%d", id))
 			return e.obj(s, id).ctx.err
 		})
 	case "(*context.cancelCtx).Deadline":
